@@ -136,6 +136,7 @@ PROPS = {
         assumptions=COMMON_ASSUME + ["the wrapper store sees every Append attempt of the bus"],
         tests=[
             dict(name="TestFailuresMemory", quick=1200, thorough=60000, shards_thorough=12),
+            dict(name="TestConcurrentOutcome", quick=300, thorough=20000, shards_thorough=8, shrinktime="5s"),
             dict(name="TestFailuresSQLite", quick=200, thorough=10000, shards_thorough=4, shrinktime="15s"),
         ],
     ),
